@@ -8,7 +8,18 @@ use serde_json::{json, Value};
 
 pub const WALK_CAP: usize = 20000;
 
-pub fn walk<I: Iterator>(it: I, script: &Value, p: &dyn Fn(I::Item) -> Value) -> Value {
+/// formatting target that stores nothing (Debug output is produced and dropped, without allocating)
+pub struct Null;
+impl std::fmt::Write for Null {
+    fn write_str(&mut self, _s: &str) -> std::fmt::Result { Ok(()) }
+}
+/// `{:?}` of a value, output discarded
+pub fn dbg_fmt<T: std::fmt::Debug>(x: &T) {
+    use std::fmt::Write;
+    let _ = write!(Null, "{:?}", x);
+}
+
+pub fn walk<I: Iterator + std::fmt::Debug>(it: I, script: &Value, p: &dyn Fn(I::Item) -> Value) -> Value {
     let script: Vec<Value> = script.as_array().cloned().unwrap_or_default();
     let mut obs: Vec<Value> = Vec::new();
     let (r, _, _) = measured(|| {
@@ -30,6 +41,12 @@ pub fn walk<I: Iterator>(it: I, script: &Value, p: &dyn Fn(I::Item) -> Value) ->
                     let none = o.is_none();
                     if !done { obs.push(opt(o)); }
                     if none { done = true; }
+                }
+                "debug" => {
+                    // Debug-formatting an iterator in whatever state the walk left it
+                    let i = it.as_ref().expect("harness: walk continues after a consuming call");
+                    dbg_fmt(i);
+                    if !done { obs.push(json!({"dbg":true})); }
                 }
                 "size_hint" => {
                     let i = it.as_mut().expect("harness: walk continues after a consuming call");
